@@ -1,4 +1,4 @@
-package main
+package core
 
 import (
 	"bytes"
@@ -10,10 +10,10 @@ import (
 
 var intLit = regexp.MustCompile(`^-?(0|[1-9][0-9]*)$`)
 
-// jsonTree returns the Gallina [json] term of a JSON text, obtained with
+// JSONTree returns the Gallina [json] term of a JSON text, obtained with
 // json.Valid + Decoder.Token (independent of struct decoding; key order and
 // duplicates are preserved). ok=false when the text is not valid JSON.
-func jsonTree(text []byte) (term string, ok bool) {
+func JSONTree(text []byte) (term string, ok bool) {
 	if !json.Valid(text) {
 		return "", false
 	}
@@ -53,12 +53,12 @@ func treeFromTok(dec *json.Decoder, tok json.Token) (string, error) {
 				if err != nil {
 					return "", err
 				}
-				items = append(items, gPair(gStr(k), val))
+				items = append(items, GPair(GStr(k), val))
 			}
 			if _, err := dec.Token(); err != nil {
 				return "", err
 			}
-			return "(JObj " + gList(items) + ")", nil
+			return "(JObj " + GList(items) + ")", nil
 		case '[':
 			var items []string
 			for dec.More() {
@@ -71,26 +71,26 @@ func treeFromTok(dec *json.Decoder, tok json.Token) (string, error) {
 			if _, err := dec.Token(); err != nil {
 				return "", err
 			}
-			return "(JArr " + gList(items) + ")", nil
+			return "(JArr " + GList(items) + ")", nil
 		}
 		return "", fmt.Errorf("unexpected delimiter %v", v)
 	case string:
-		return "(JStr " + gStr(v) + ")", nil
+		return "(JStr " + GStr(v) + ")", nil
 	case json.Number:
-		return "(JNum " + gJnum(string(v)) + ")", nil
+		return "(JNum " + GJnum(string(v)) + ")", nil
 	case bool:
-		return "(JBool " + gBool(v) + ")", nil
+		return "(JBool " + GBool(v) + ")", nil
 	case nil:
 		return "JNull", nil
 	}
 	return "", fmt.Errorf("unexpected token %T", tok)
 }
 
-func gJnum(lit string) string {
+func GJnum(lit string) string {
 	if intLit.MatchString(lit) {
 		neg := strings.HasPrefix(lit, "-")
 		mag := strings.TrimPrefix(lit, "-")
-		return "(JInt " + gBool(neg) + " " + mag + "%N)"
+		return "(JInt " + GBool(neg) + " " + mag + "%N)"
 	}
-	return "(JOther " + gStr(lit) + ")"
+	return "(JOther " + GStr(lit) + ")"
 }
